@@ -45,19 +45,19 @@ type ParsedFn struct {
 
 // op kinds
 const (
-	opParse    = iota // Parse(path,cfg) into own slot
-	opCall            // call own slot on doc
-	opCallShared      // call shared function on doc
-	opRetrieve        // Retrieve(path, doc, cfg)
-	opScribble        // overwrite every element of an earlier result
-	opAppend          // append to an earlier result
-	opParseFail       // Parse of a failing template
-	opParseInject     // Parse hit by an injected panic
-	opPublish         // publish own slot to the shared board
-	opCallPublished   // call a function somebody published
-	opModifyCfg       // modify a Config value after it was used by Parse (C19)
-	opParseKept       // Parse with a long-lived Config value (C19)
-	opCustom          // property-specific operation (closure)
+	opParse         = iota // Parse(path,cfg) into own slot
+	opCall                 // call own slot on doc
+	opCallShared           // call shared function on doc
+	opRetrieve             // Retrieve(path, doc, cfg)
+	opScribble             // overwrite every element of an earlier result
+	opAppend               // append to an earlier result
+	opParseFail            // Parse of a failing template
+	opParseInject          // Parse hit by an injected panic
+	opPublish              // publish own slot to the shared board
+	opCallPublished        // call a function somebody published
+	opModifyCfg            // modify a Config value after it was used by Parse (C19)
+	opParseKept            // Parse with a long-lived Config value (C19)
+	opCustom               // property-specific operation (closure)
 )
 
 // Op is one planned operation.
@@ -151,13 +151,13 @@ type Task struct {
 
 // World is one run.
 type World struct {
-	prop    string
-	docs    []*Doc
-	shared  []*ParsedFn
-	tasks   []*Task
-	cfg     simrt.RunConfig
-	board   [simrt.MaxTasks]boardSlot
-	race    bool
+	prop   string
+	docs   []*Doc
+	shared []*ParsedFn
+	tasks  []*Task
+	cfg    simrt.RunConfig
+	board  [simrt.MaxTasks]boardSlot
+	race   bool
 	// oracle switches
 	checkDocsAfterOp bool // C04: compare every reachable document after every operation
 	refInline        bool // C05: evaluate the pre-parsed reference on a copy of the current document
@@ -496,6 +496,8 @@ func (w *World) execOp(t *Task, idx int) {
 	if simrt.Aborted() != 0 {
 		return
 	}
+	// outcomes are part of the run's event digest (R-order compares digests across process orders)
+	simrt.Mix(fnv(o.Got) ^ fnv(o.GotLog)<<1)
 	if len(t.rec.Calls) > 0 {
 		for _, c := range t.rec.Calls {
 			if c.Fail {
